@@ -30,7 +30,9 @@ type qGen struct {
 
 func coqLitString(s string) string { return "(ELit " + coqVal(value.NewString(s)) + ")" }
 
-func sqlQuote(s string) string { return "'" + strings.ReplaceAll(strings.ReplaceAll(s, `\`, `\\`), "'", `\'`) + "'" }
+func sqlQuote(s string) string {
+	return "'" + strings.ReplaceAll(strings.ReplaceAll(s, `\`, `\\`), "'", `\'`) + "'"
+}
 
 func (g *qGen) lit() qE {
 	switch g.r.Intn(9) {
